@@ -170,6 +170,21 @@ def check_pure(st, doc, text, shp, segs, ptext, is_coll):
                         "changed by get_nodes(mustexist=False) on an "
                         "existing path")
                 return True
+            # ... and with a default value at hand for what might be missing
+            # (nothing is: the default must not land anywhere)
+            out3 = qrun.query(doc, ptext, mustexist=False, default="z")
+            st.transitions += 1
+            if snapshot(doc) != before:
+                st.fail("pure|%s|optional-query-with-default-mutates" % sig,
+                        case, "document unchanged",
+                        "changed by get_nodes(mustexist=False, "
+                        "default_value='z') on an existing path")
+                return True
+            if out3.kind == "nodes" and len(out3.ncs) != len(out.ncs):
+                st.fail("pure|%s|optional-query-other-results" % sig, case,
+                        "%d results" % len(out.ncs),
+                        "%d results" % len(out3.ncs))
+                return True
     return False
 
 
